@@ -178,6 +178,13 @@ def check_distance_matcher(ctx, rules=("PATHCOUNT", "TIME", "INDEX", "GREEDY", "
             for s in ast.walk(wl[0]):
                 if isinstance(s, ast.If) and s.body and isinstance(s.body[0], ast.Break):
                     t = U(s.test)
+                    if D not in names_in(s.test):
+                        # the minimal distance read into a temporary: resolved when the matrix is not written between the read and the test
+                        tx = fv.expand(s.test, s, stop=(D,) + tuple(pair), allow_mutated=True)
+                        lo = min((d_.stmt.lineno for nm_ in names_in(s.test) for d_ in fv.defs_reaching(nm_, s) if d_.stmt is not None and hasattr(d_.stmt, "lineno")), default=s.lineno)
+                        wr = [w_ for w_ in ast.walk(wl[0]) if isinstance(w_, ast.Subscript) and isinstance(w_.ctx, ast.Store) and U(w_.value) == D and lo <= w_.lineno <= s.lineno]
+                        if not wr:
+                            t = U(tx)
                     if t in (f"np.isinf({D}[{pair[0]}, {pair[1]}])", f"not np.isfinite({D}[{pair[0]}, {pair[1]}])", f"{D}[{pair[0]}, {pair[1]}] == np.inf"):
                         brk = True
         if "GREEDY" in rules:
